@@ -42,8 +42,9 @@ def _(c):
     c.param("self", "node")
     c.result_tag = "node?"
     c.pure()
-    member_pre(c)
-    c.ensures("result == parent, None for top-level nodes", lambda x: res_is(x, If(x.h0._parent(x.a.self) == x.h0._root(x.T), NONE, x.h0._parent(x.a.self))))
+    # deliberately weak: Tree._register calls it on a node that is not attached yet
+    c.requires("self has a parent object", lambda x: x.h0._parent(x.a.self) != NONE)
+    c.ensures("result == parent, None when the parent is a system root", lambda x: res_is(x, If(x.h0._parent(x.h0._parent(x.a.self)) == NONE, NONE, x.h0._parent(x.a.self))))
 
 
 @contract(NQ + "get_children", props=C10)
